@@ -1,6 +1,7 @@
 """Shared machinery of C10 / C11: Lifecycle.tla model checking, behaviour generation, the gated replay driver and
 LifecycleTrace.tla validation."""
 import json
+import re
 import os
 import vlib
 
@@ -180,7 +181,7 @@ def judge(ctx, events, viols, scens, prefixes, tlc_out):
             sig["panic"] = (e.get("msg") or "")[:60]
         elif e["ev"] == "UDPStep":
             sig["step"] = e["step"]
-            sig["err"] = (e.get("err") or "")[:50]
+            sig["err"] = re.sub(r":\d+", ":*", e.get("err") or "")[:60]   # port numbers are chosen by the kernel: not part of the signature
         sc = scens[s["id"] - 1] if s["id"] - 1 < len(scens) else None
         vlib.report_violation(ctx, sig, sc)
 
